@@ -989,3 +989,95 @@ func collectLeaves(ts []*Term) (vars []*Term, apps []*Term) {
 	sort.Slice(apps, func(i, j int) bool { return apps[i].id < apps[j].id })
 	return
 }
+
+// Rebuild re-creates a node with new arguments through the simplifying constructors.
+func (tb *TB) Rebuild(t *Term, args []*Term) *Term {
+	switch t.Op {
+	case "true", "false", "const", "var":
+		return t
+	case "uf":
+		return tb.App(t.Name, t.Sort, args...)
+	case "not":
+		return tb.Not(args[0])
+	case "and":
+		return tb.And(args...)
+	case "or":
+		return tb.Or(args...)
+	case "ite":
+		return tb.Ite(args[0], args[1], args[2])
+	case "=":
+		return tb.Eq(args[0], args[1])
+	case "bvult", "bvule", "bvslt", "bvsle":
+		return tb.Cmp(t.Op, args[0], args[1])
+	case "bvnot":
+		return tb.BVNot(args[0])
+	case "bvneg":
+		return tb.Neg(args[0])
+	case "extract":
+		return tb.Extract(t.P1, t.P2, args[0])
+	case "zext":
+		return tb.ZExt(t.Sort, args[0])
+	case "sext":
+		return tb.SExt(t.Sort, args[0])
+	case "bvadd", "bvsub", "bvmul", "bvand", "bvor", "bvxor", "bvudiv", "bvurem", "bvsdiv", "bvsrem", "bvshl", "bvlshr", "bvashr":
+		return tb.Bin(t.Op, args[0], args[1])
+	}
+	panic("Rebuild: unknown op " + t.Op)
+}
+
+// RewriteUnder replaces every occurrence of a literal known to be true (ids in lits map to
+// true, ids in nlits to false) and re-simplifies bottom-up.
+func (tb *TB) RewriteUnder(root *Term, lits, nlits map[int]bool, memo map[int]*Term) *Term {
+	type frame struct {
+		t *Term
+		i int
+	}
+	stack := []frame{{root, 0}}
+	for len(stack) > 0 {
+		f := &stack[len(stack)-1]
+		if _, ok := memo[f.t.id]; ok {
+			stack = stack[:len(stack)-1]
+			continue
+		}
+		if f.t.Sort == 0 {
+			if lits[f.t.id] {
+				memo[f.t.id] = tb.True
+				stack = stack[:len(stack)-1]
+				continue
+			}
+			if nlits[f.t.id] {
+				memo[f.t.id] = tb.False
+				stack = stack[:len(stack)-1]
+				continue
+			}
+		}
+		if f.i < len(f.t.Args) {
+			a := f.t.Args[f.i]
+			f.i++
+			if _, ok := memo[a.id]; !ok {
+				stack = append(stack, frame{a, 0})
+			}
+			continue
+		}
+		t := f.t
+		if len(t.Args) == 0 {
+			memo[t.id] = t
+		} else {
+			args := make([]*Term, len(t.Args))
+			changed := false
+			for i, a := range t.Args {
+				args[i] = memo[a.id]
+				if args[i] != a {
+					changed = true
+				}
+			}
+			if changed {
+				memo[t.id] = tb.Rebuild(t, args)
+			} else {
+				memo[t.id] = t
+			}
+		}
+		stack = stack[:len(stack)-1]
+	}
+	return memo[root.id]
+}
